@@ -1,12 +1,12 @@
 SPECIFICATION Spec
 CONSTANTS
-  ShapeSet <- ShapesCrashChk
+  ShapeSet <- ShapesCrash
   SeqOutcomes <- OkPerm
   ChkOutcomes <- OkPerm
   MaxCrashes = 1
   MaxRuns = 1
-  Tolerated <- KnownRecoveryAny
-  FnOut = FALSE
+  Tolerated <- KnownRecovery
+  FnOut = TRUE
   Gen = "off"
 INVARIANTS NoClauseViolated InvQuiescentAtRelease InvDurLagsMem
 CHECK_DEADLOCK TRUE
